@@ -470,12 +470,28 @@ def to_external_form(mb):
     return bytes(out)
 
 
+def _int4_bmm_rhs(mb):
+    try:
+        m = read(mb)
+        for sg in m.subgraphs:
+            for op in sg.operators:
+                if BO_NAME.get(m.operatorCodes[op.opcodeIndex].builtinCode) == "BATCH_MATMUL" and len(op.inputs) == 2 \
+                        and sg.tensors[op.inputs[1]].type == TT.INT4:
+                    return True
+    except Exception:  # noqa: BLE001
+        pass
+    return False
+
+
 def interp_err_class(r, mb=None):
     """call-site class of an interpreter failure: kernel file + failed condition, digits masked"""
     if isinstance(r, tuple) and r[0] == "abort" and mb is not None:
         return "abort:" + (abort_class(mb) or "unclassified")
     msg = re.sub(r"\d+", "N", str(r[1] if isinstance(r, tuple) else r))
     msg = msg.replace("RuntimeError: ", "")
+    if "batch_matmul.cc" in msg and "rhs_data->type" in msg and mb is not None and _int4_bmm_rhs(mb):
+        # finding D37: the emulated sub-channel pattern hands a 4-bit constant to BATCH_MATMUL, whose kernel takes float32/int8/int16 only
+        return (str(r[0]) + ":" if isinstance(r, tuple) else "") + "BATCH_MATMUL:int4-rhs"
     return (str(r[0]) + ":" if isinstance(r, tuple) else "") + msg[:70]
 
 
